@@ -1044,7 +1044,16 @@ class EvalMixin:
             o = self.p.deref(v)
             if o.items:
                 raise Undecided("iteration over prefix+suffix list")
-            return self.mkint(o.pre[1]), (lambda k: o.pre[2](self.it(k))), False
+            cnt = self.mkint(o.pre[1])
+            if self.bv is not None and isinstance(cnt, SInt):
+                # bit-vector mode: the symbolic length is an exact value when the path bounds it below the word size
+                for bits in (8, 16, 24, self.bv - 4, self.bv - 1):
+                    if 0 < bits < self.bv and self.p.implied(z3.And(cnt.t >= 0, cnt.t < (1 << bits))):
+                        cnt = self.int_from_term(cnt.t, bits)
+                        break
+                else:
+                    raise Undecided("bv: list length not bounded by the word size")
+            return cnt, (lambda k: o.pre[2](self.it(k))), False
         return None
 
     def s_For(self, n, fr):
@@ -1198,6 +1207,9 @@ class EvalMixin:
                     self.p.assume(z3.And(t >= 0, t <= self.it(count)))
                     if self.bv is not None:
                         self.p.assume(t < (1 << (self.bv - 1)))
+                        if not hasattr(self, "bv_origin"):
+                            self.bv_origin = {}
+                        self.bv_origin[id_key(fr.env[x].t)] = t
                     continue
                 fr.env[x] = self.havoc_like(x, fr.env.get(x), hints.get(x))
         inv_nodes = []
